@@ -8,6 +8,7 @@ import (
 	"strconv"
 
 	be "github.com/echoface/be_indexer"
+	"github.com/echoface/be_indexer/parser"
 )
 
 // one value in every supported representation
@@ -129,7 +130,7 @@ func execJSON(raw json.RawMessage) (res execResult, err error) {
 	return
 }
 
-const c09Rule = "parser level: every pair (representation at indexing time, representation at query time) of the values {0, +-1, +-3, 7, +-127, 255, +-2^31, +-2^53+-1, +-2^62} in every supported shape (all integer widths, numeric string, json.Number, float32/64 incl. fractional, scalar / typed slice / heterogeneous list) and pairs of different values; end to end: the same pairs through AddDocument/Retrieve on both posting-list indexes; JSON ingest: documents of every operator (in/not-in on default, pattern and range containers, >, <, between) marshalled, unmarshalled and rebuilt, answers compared with the original index on 10..16 queries, and the decoded values compared with the model of encoding/json (Model/Json.v); dedicated cases for float32 values around 2^24 and for empty / nil slices as expression values. roaring default container: include and exclude on one field of one conjunction against assigned lists in both orders and several representations; Non-trivial (parser level) = both sides accepted; distinct = distinct input"
+const c09Rule = "parser level: every pair (representation at indexing time, representation at query time) of the values {0, +-1, +-3, 7, +-127, 255, +-2^31, +-2^53+-1, +-2^62} in every supported shape (all integer widths, numeric string, json.Number, float32/64 incl. fractional, scalar / typed slice / heterogeneous list) and pairs of different values; end to end: the same pairs through AddDocument/Retrieve on both posting-list indexes; JSON ingest: documents of every operator (in/not-in on default, pattern and range containers, >, <, between) marshalled, unmarshalled and rebuilt, answers compared with the original index on 10..16 queries, and the decoded values compared with the model of encoding/json (Model/Json.v); dedicated cases for float32 values around 2^24 and for empty / nil slices as expression values. roaring default container: include and exclude on one field of one conjunction against assigned lists in both orders and several representations; stock holders next to a registered holder whose factory reconfigures its own parser in place (no float conversion, dense allocator); Non-trivial (parser level) = both sides accepted; distinct = distinct input"
 
 func init() {
 	vals := []int64{0, 1, -1, 3, -3, 7, 127, -127, 255, 1 << 31, -(1 << 31), 1<<53 - 1, -(1<<53 - 1), 1 << 62, -(1 << 62)}
@@ -237,6 +238,20 @@ func init() {
 				}
 				add(c)
 			}
+			// stock holders next to a holder whose factory reconfigures its own parser in place: floats, float lists and
+			// JSON-style untyped lists must keep matching by their integer part on the stock holders
+			for _, kind := range []string{"kgroups", "compact"} {
+				c := eCase{Kind: kind, Policy: "error", Docs: []eDoc{
+					{ID: 10, Cons: []eConj{{{F: 0, Inc: true, V: tvList(tvFloat("float64", 1), tvFloat("float64", 7))}}}},
+					{ID: 11, Cons: []eConj{{{F: 0, Inc: true, V: tvSlice("[]int", tvInt("int", 7))}, {F: 1, Inc: false, V: tvFloat("float64", 5)}}}},
+					{ID: 12, Cons: []eConj{{{F: 1, Inc: true, V: tvSlice("[]float64", tvFloat("float64", -3.9), tvFloat("float64", 2.5))}}}},
+					{ID: 13, Cons: []eConj{{{F: 0, Inc: true, V: tvStr("abc")}}}},
+				}}
+				for _, v := range []TV{tvFloat("float64", 7), tvFloat("float32", 7.5), tvSlice("[]float64", tvFloat("float64", -3.9)), tvList(tvFloat("float64", 1), tvFloat("float64", 7)), tvInt("int", 7), tvStr("7"), tvFloat("float64", 5), tvInt("int", -3), tvStr("abc"), tvStr("x")} {
+					c.Queries = append(c.Queries, eQuery{A: []eAssign{{F: 0, V: v}}}, eQuery{A: []eAssign{{F: 1, V: v}}}, eQuery{A: []eAssign{{F: 0, V: tvInt("int", 7)}, {F: 1, V: v}}})
+				}
+				add(strictCase{eCase: c, Strict: true})
+			}
 			denseAllocatorCases(add) // value identity does not depend on which id allocator names the texts
 			// JSON ingest
 			nj := 60
@@ -286,9 +301,34 @@ func init() {
 				K      string          `json:"k"`
 				JSON   bool            `json:"json"`
 				Fields json.RawMessage `json:"fields"`
+				Strict bool            `json:"strict"`
 			}
 			json.Unmarshal(raw, &probe)
 			switch {
+			case probe.Strict:
+				// another index of this process uses a holder whose factory tightens ITS parser in place through the exported
+				// fields (no float conversion, a dense allocator); the case itself runs on stock holders afterwards
+				be.RegisterEntriesHolder("verif_strict", func() be.EntriesHolder {
+					h := be.NewDefaultEntriesHolder()
+					if p, ok := h.Parser.(*parser.CommonStrParser); ok {
+						p.EnableFloat2Int = false
+						p.StrIDAllocator = parser.NewIDAllocatorImpl()
+					}
+					return h
+				})
+				sb := be.NewIndexerBuilder()
+				sb.ConfigField("strict_field", be.FieldOption{Container: "verif_strict"})
+				sd := be.NewDocument(1)
+				sd.AddConjunction(be.NewConjunction().In("strict_field", []int{1, 2}).In("f0", 3), be.NewConjunction().In("strict_field", "x"))
+				safeCall(func() { sb.AddDocument(sd) })
+				var sidx be.BEIndex
+				safeCall(func() { sidx = sb.BuildIndex() })
+				res, err := execE2E(raw)
+				if sidx != nil {
+					safeCall(func() { sidx.Retrieve(be.Assignments{"strict_field": 1, "f0": 3}) })
+				}
+				res.Family = "E"
+				return res, err
 			case probe.Fields != nil:
 				res, err := execRr(raw)
 				res.Family = "R"
@@ -303,6 +343,11 @@ func init() {
 			return res, err
 		},
 	}
+}
+
+type strictCase struct {
+	eCase
+	Strict bool `json:"strict"`
 }
 
 type jsonCase struct {
